@@ -1008,7 +1008,7 @@ pub fn gen_history(prop: &str, rng: &mut Rng, hno: u64) -> HCfg {
         "pairs" => "pairs",
         _ => "mixed",
     };
-    let threads = *rng.pick(&[2u8, 3, 4, 4, 6, 8, 12, 16]);
+    let threads = if mode == "pairs" { *rng.pick(&[8u8, 12, 16, 16]) } else { *rng.pick(&[2u8, 3, 4, 4, 6, 8, 12, 16]) };
     let keys = match mode {
         "barrier" => rng.range(2, 8),
         _ => rng.range(4, 16),
@@ -1055,8 +1055,8 @@ pub fn gen_history(prop: &str, rng: &mut Rng, hno: u64) -> HCfg {
         mode,
         threads,
         keys,
-        ops: rng.range(100, 400) as u32,
-        delays: if rng.chance(3, 4) { Some((*rng.pick(&[50u32, 200, 500]), *rng.pick(&[20u32, 100, 400]))) } else { None },
+        ops: if mode == "pairs" { rng.range(300, 500) as u32 } else { rng.range(100, 400) as u32 },
+        delays: if mode == "pairs" && rng.chance(1, 2) { None } else if rng.chance(3, 4) { Some((*rng.pick(&[50u32, 200, 500]), *rng.pick(&[20u32, 100, 400]))) } else { None },
         timekeeper: mode != "barrier" || rng.chance(1, 2),
         w,
         ttl_share: if mode == "barrier" { 0 } else { 3 },
